@@ -46,6 +46,13 @@ static void dump_os_consts(void) {
   CZV("default_arena_eager_commit", options[mi_option_arena_eager_commit].value);
   CZV("default_eager_commit", options[mi_option_eager_commit].value);
   CZV("default_eager_commit_delay", options[mi_option_eager_commit_delay].value);
+  CZV("default_allow_large_os_pages", options[mi_option_allow_large_os_pages].value);
+#if defined(MADV_HUGEPAGE)
+  CNV("MADV_HUGEPAGE_", MADV_HUGEPAGE);
+#else
+  CNV("MADV_HUGEPAGE_", 0);
+#endif
+  CNV("LARGE_PAGE_SIZE_", 2*MI_MiB);   // config->large_page_size set by _mi_prim_mem_init
 }
 
 int main(void) {
